@@ -138,9 +138,9 @@ Lemma pair_eqb_refl : forall a, pair_eqb a a = true.
 Proof. intros [k v]. unfold pair_eqb. cbn [fst snd]. rewrite !str_eqb_refl. reflexivity. Qed.
 
 Lemma header_matches_output : forall c,
-  accepted c = true -> expires_ok c = true -> header_matches c (output_string c) = true.
+  accepted c = true -> header_matches c (output_string c) = true.
 Proof.
-  intros c Ha He.
+  intros c Ha.
   assert (Hk : legal_key (c_name c) = true) by (apply key_ok_legal; apply accepted_inv in Ha; tauto).
   apply accepted_split in Ha as [Hv _].
   unfold header_matches.
@@ -171,19 +171,41 @@ Proof.
   rewrite A. reflexivity.
 Qed.
 
-(* the only hypothesis: the opaque expiry texts are well formed *)
-Definition all_good (ops : list op) : bool := forallb expires_ok (calls_of ops).
+(* ---------------- the end of the request ---------------- *)
+(* for ANY handler state whose head has not been written yet, and any ending:
+   the response has the status of that ending (the current status for a normal
+   return) and the Set-Cookie headers of the whole jar *)
+Definition status_after (e : ending) (h : hstate) : N :=
+  match e with EndReturn | EndFinish => h_status h | _ => status_of e end.
 
-Lemma checker_accepts_model : forall ops, all_good ops = true ->
-  check_case ops (run_case ops) = true.
+Lemma end_request_keeps_jar : forall e h, h_written h = false ->
+  end_request e h = Some (status_after e h, flush (h_jar h)).
 Proof.
-  intros ops He. unfold all_good in He. rewrite forallb_forall in He.
-  assert (Hf := flush_sends ops). assert (Hk := jar_keys_ok ops). assert (Hn := jar_nodup ops).
+  intros e h Hw. unfold end_request, respond.
+  destruct e; cbn [h_end status_after status_of]; unfold h_send_error, h_clear; rewrite ?Hw; cbn; rewrite ?Hw; reflexivity.
+Qed.
+
+Lemma ending_keeps_cookies : forall ops e,
+  run_request ops e
+  = (fst (run_ops ops), Some (status_of e, Some (headers_of (snd (run_ops ops))))).
+Proof.
+  intros ops e. unfold run_request. assert (Hf := flush_sends ops).
+  destruct (run_ops ops) as [res j]. cbn [fst snd] in *.
+  rewrite end_request_keeps_jar by reflexivity. cbn [h_jar]. rewrite Hf.
+  destruct e; reflexivity.
+Qed.
+
+Lemma checker_accepts_model : forall ops e,
+  check_case (ops, e) (run_case (ops, e)) = true.
+Proof.
+  intros ops e.
+  assert (Hk := jar_keys_ok ops). assert (Hn := jar_nodup ops).
   assert (Hm := jar_same_members ops). assert (Hlen := jar_length ops). assert (Hr := results_spec ops).
   assert (Hmem := jar_members ops).
-  unfold run_case. destruct (run_ops ops) as [res j]. cbn [fst snd] in *. subst res.
-  unfold check_case. rewrite ok_calls_model. fold (calls_of ops).
-  unfold out_obs. rewrite Hf. rewrite request_cookies_jar by assumption.
+  unfold run_case. rewrite ending_keeps_cookies.
+  destruct (run_ops ops) as [res j]. cbn [fst snd] in *. subst res.
+  unfold check_case. rewrite Z.eqb_refl. cbn [andb]. rewrite ok_calls_model. fold (calls_of ops).
+  unfold out_obs. rewrite request_cookies_jar by assumption.
   unfold headers_of. rewrite !map_length, Hlen, Nat.eqb_refl. cbn [andb].
   assert (H1 : forallb (header_expected (dedup_last (calls_of ops))) (map OBytes (map output_string j)) = true).
   { apply forallb_forall. intros h Hh. apply in_map_iff in Hh as (h' & <- & Hh).
@@ -191,7 +213,7 @@ Proof.
     assert (Hkc : legal_key (c_name c) = true) by (apply key_ok_legal; apply accepted_inv in Ha; tauto).
     unfold header_expected. rewrite browser_name_output by exact Hkc.
     rewrite (find_call_in _ c (dedup_last_nodup _) (proj1 (Hm c) Hc)).
-    apply header_matches_output; [exact Ha|apply He, Hc1]. }
+    apply header_matches_output; exact Ha. }
   assert (H2 : forallb (fun c => existsb (str_eqb (c_name c)) (map header_name (map OBytes (map output_string j))))
                        (dedup_last (calls_of ops)) = true).
   { apply forallb_forall. intros c Hc. apply Hm in Hc. apply existsb_exists.
@@ -237,15 +259,15 @@ Proof.
 Qed.
 
 Lemma latin1_call_accepted : forall c,
-  validate c = Ok -> call_latin1 c = true -> expires_ok c = true -> accepted c = true.
+  validate c = Ok -> call_latin1 c = true -> accepted c = true.
 Proof.
-  intros c Hv Hl He. apply accepted_split. split; [exact Hv|apply output_sendable; assumption].
+  intros c Hv Hl. apply accepted_split. split; [exact Hv|apply output_sendable; assumption].
 Qed.
 
-Lemma attributes_exact : forall c, accepted c = true -> expires_ok c = true ->
+Lemma attributes_exact : forall c, accepted c = true ->
   browser_name (output_string c) = c_name c /\ browser_attrs (output_string c) = requested c.
 Proof.
-  intros c Ha He.
+  intros c Ha.
   assert (Hk : legal_key (c_name c) = true) by (apply key_ok_legal; apply accepted_inv in Ha; tauto).
   apply accepted_split in Ha as [Hv _]. split; [apply browser_name_output, Hk|].
   rewrite browser_attrs_output by assumption. apply attrs_exact.
@@ -263,7 +285,7 @@ Proof. intros ops. apply request_cookies_jar; [apply jar_keys_ok|apply jar_nodup
 (* a concrete call with every attribute, for the Examples *)
 Definition ex_full : call :=
   mkCall [115;105;100] [97;59;34;92;233] (Some [101;46;99;111;109])
-         (Some [84;104;117;44;32;48;49;32;74;97;110;32;49;57;55;48;32;48;48;58;48;48;58;48;49;32;71;77;84])
+         (Some 951782400%Z)
          (Some [47;112]) (Some 0%Z) true true (Some [76;97;120]).
 
 Lemma clear_cookie_reads_back_empty : forall c, accepted (lower (OpClear c)) = true ->
@@ -273,3 +295,33 @@ Proof. intros c H. exact (value_reads_back _ H). Qed.
 Lemma signed_cookie_reads_back : forall c, accepted (lower (OpSigned c)) = true ->
   parse_cookie (nv_part (output_string (lower (OpSigned c)))) = [(c_name c, c_value c)].
 Proof. intros c H. exact (value_reads_back _ H). Qed.
+
+Lemma validate_expiry : forall c, validate c = Ok -> expiry_check c = Ok.
+Proof.
+  intros c H. unfold validate in H.
+  destruct (existsb bad_value_char (c_value c)); [discriminate|].
+  destruct (negb (attr_clean (c_name c) && opt_clean (c_domain c) && opt_clean (c_path c) && opt_clean (c_samesite c)));
+    [discriminate|].
+  destruct (expiry_check c); try discriminate. reflexivity.
+Qed.
+
+(* an expiry that format_timestamp cannot represent makes the call raise (and,
+   by C25_last_setting_wins, a call that raises changes nothing) *)
+Lemma unrepresentable_expiry_rejected : forall c, expiry_check c <> Ok -> accepted c = false.
+Proof.
+  intros c H. destruct (accepted c) eqn:A; [|reflexivity].
+  apply accepted_split in A as [A _]. apply validate_expiry in A. contradiction.
+Qed.
+
+(* every accepted call's expiry lies in years 1..9999 (or is absent / falsy) *)
+Lemma accepted_expiry_in_range : forall c t, accepted c = true -> c_expires c = Some t -> t <> 0%Z ->
+  (-62135596800 <= t < 253402300800)%Z.
+Proof.
+  intros c t A E Hz. apply accepted_split in A as [A _]. apply validate_expiry in A.
+  unfold expiry_check in A. rewrite E in A. apply Z.eqb_neq in Hz. rewrite Hz in A.
+  unfold expiry_outcome in A.
+  destruct ((-62135596800 <=? t) && (t <? 253402300800))%Z eqn:R.
+  - apply andb_true_iff in R as [R1 R2]. apply Z.leb_le in R1. apply Z.ltb_lt in R2. lia.
+  - destruct ((-67768040609740800 <=? t) && (t <? 67768036191676800))%Z; [discriminate|].
+    destruct ((-9223372036854775808 <=? t) && (t <? 9223372036854775808))%Z; discriminate.
+Qed.
